@@ -50,11 +50,11 @@ class Ctx:
 
 
 # ------------------------------------------------------------------ TLC: model checking of design modules
-def run_mc(ctx, module, cfg, workers=8, timeout=1500, heap="8g", expect_violation=False, env=None, simulate=None):
+def run_mc(ctx, module, cfg, workers=8, timeout=1500, heap="8g", expect_violation=False, env=None, simulate=None, coverage=True):
     """exhaustive TLC run on spec/<module>.tla with spec/<cfg>; returns dict(states, distinct, ok, ...)"""
     md = os.path.join(ctx.work, "mc-" + cfg.replace(".cfg", ""))
     os.makedirs(md, exist_ok=True)
-    cmd = tlc_cmd(["-Xmx" + heap]) + ["-workers", str(workers), "-metadir", md, "-coverage", "1", "-config", cfg]
+    cmd = tlc_cmd(["-Xmx" + heap]) + ["-workers", str(workers), "-metadir", md] + (["-coverage", "1"] if coverage else []) + ["-config", cfg]
     if simulate:
         cmd += ["-simulate", simulate]
     cmd += [module + ".tla"]
@@ -125,7 +125,7 @@ def tlc_generate(ctx, module, cfg_text, name, timeout=600, heap="6g", workers=4)
 
 
 # ------------------------------------------------------------------ replay + trace validation
-def replay_and_validate(ctx, exe, batches, tracespec, env_flags, label="b", jobs=16, tlc_timeout=1700, heap="3g"):
+def replay_and_validate(ctx, exe, batches, tracespec, env_flags, label="b", jobs=14, tlc_timeout=1700, heap="2g"):
     """batches: list of lists of script commands (each batch = several executions separated by reset).
     Returns list of per-batch result dicts; deviations are appended to ctx.devs."""
     os.makedirs(ctx.work, exist_ok=True)
@@ -183,7 +183,7 @@ def replay_and_validate(ctx, exe, batches, tracespec, env_flags, label="b", jobs
     return results
 
 
-def validate_trace(ctx, tracespec, trace, outj, env_flags, timeout=1700, heap="3g", retry=True):
+def validate_trace(ctx, tracespec, trace, outj, env_flags, timeout=1700, heap="2g", retry=True):
     md = outj + ".md"
     e = dict(os.environ)
     e.update(env_flags)
@@ -191,7 +191,7 @@ def validate_trace(ctx, tracespec, trace, outj, env_flags, timeout=1700, heap="3
     e["OUT"] = outj
     if os.path.exists(outj):
         os.remove(outj)
-    cmd = tlc_cmd(["-Xmx" + heap]) + ["-workers", "1", "-metadir", md, "-config", tracespec + ".cfg", tracespec + ".tla"]
+    cmd = tlc_cmd(["-Xmx" + heap]) + ["-workers", "1", "-noGenerateSpecTE", "-metadir", md, "-config", tracespec + ".cfg", tracespec + ".tla"]
     try:
         p = subprocess.run(cmd, cwd=SPEC, capture_output=True, text=True, timeout=timeout, env=e)
         out, rc = p.stdout + p.stderr, p.returncode
@@ -310,6 +310,12 @@ def finish(ctx, level, rule, trusted, assumptions, props_judged=None, extra_cov=
     if other:
         codes = sorted(set((d["prop"], d["code"]) for d in other))
         print("note: %d deviations belonging to other properties were seen and are reported by their own checks: %s" % (len(other), codes[:8]))
+        for d in other[:3]:
+            print("  other: prop=%s code=%s info=%s script=%s line=%s" % (d["prop"], d["code"], json.dumps(d.get("info", {})), d.get("script"), d.get("line")))
+        if os.environ.get("VERIF_KEEP_OTHER"):
+            import shutil as _sh
+            for d in other[:3]:
+                _sh.copy(d["script"], "/var/tmp/vt/other_%s.ndjson" % d["prop"])
     for m in ctx.infra:
         print("INFRASTRUCTURE: " + m[:2000])
     wall = round(time.time() - ctx.t0, 1)
